@@ -4,7 +4,9 @@ EXCEL_EPOCH = datetime.datetime(1900, 1, 1)
 
 
 def number_to_datetime(value):
-    offset = 2 if value > 58 else 1
+    # Serial 60 is Excel's non-existent 29 February 1900: only serials from
+    # 60 on are shifted by it (59 is 28 February 1900, 61 is 1 March 1900).
+    offset = 2 if value >= 60 else 1
     delta = datetime.timedelta(
         days=int(value) - offset, seconds=(value % 1) * 24 * 60 * 60)
     return EXCEL_EPOCH + delta
